@@ -168,6 +168,7 @@ def _history(env, prog, used, eng):
     """Earlier history in the same engines: equal-but-not-identical trees whose leaves (same names, same columns) were
     declared with other bounds - a leaf re-created after its content changed compares equal to the old one.  Their
     metadata is read so that anything remembered per *equal* relation is remembered before the tree under test exists."""
+    env.history = False  # this check's own, stronger history replaces the generic one of prog.build
     for dlo, dhi in ((0, 0),):
         for name in used:
             if name in SPECIAL:
